@@ -368,10 +368,10 @@ package index
 //@ lemma Bytes.ext_right: forall a Bytes, b Bytes, c Bytes :: blt(b, a) && !isprefix(b, a) && isprefix(b, c) ==> blt(c, a) && !isprefix(c, a) && !isprefix(a, c) property C08
 //@ lemma Bytes.prefix_trans: forall a Bytes, b Bytes, c Bytes :: isprefix(a, b) && isprefix(b, c) ==> isprefix(a, c) property C08
 //@ lemma Bytes.split_at_lcp: forall a Bytes, b Bytes :: lcp(a, b) < len(a) && lcp(a, b) < len(b) ==> a[:lcp(a, b)+1] != b[:lcp(a, b)+1] && !isprefix(a[:lcp(a, b)+1], b[:lcp(a, b)+1]) && !isprefix(b[:lcp(a, b)+1], a[:lcp(a, b)+1]) property C08
-//@ lemma Bytes.sub_view: forall a (Array Int Int), o int, l int, lo int, hi int :: 0 <= lo && lo <= hi && hi <= l ==> bsub(mkbytes(a, o, l), lo, hi) == mkbytes(a, o + lo, hi - lo) property C08
+//@ lemma Bytes.sub_view: forall a (Array Int Int), o int, l int, lo int, hi int :: 0 <= lo && lo <= hi && hi <= l ==> lcp(bsub(mkbytes(a, o, l), lo, hi), mkbytes(a, o + lo, hi - lo)) == hi - lo && bsub(mkbytes(a, o, l), lo, hi) == mkbytes(a, o + lo, hi - lo) property C08
 //@ lemma Bytes.prefix_take: forall p Bytes, x Bytes, n int :: isprefix(p, x) && len(p) <= n && n <= len(x) ==> isprefix(p, x[:n]) property C08
 //@ lemma Bytes.prefix_lcp: forall p Bytes, x Bytes, y Bytes :: isprefix(p, x) && isprefix(p, y) ==> len(p) <= lcp(x, y) property C08
-//@ lemma Bytes.sub_whole: forall b Bytes :: bsub(b, 0, len(b)) == b property C08
+//@ lemma Bytes.sub_whole: forall b Bytes :: lcp(bsub(b, 0, len(b)), b) == len(b) && bsub(b, 0, len(b)) == b property C08
 
 // Lookups (C08): Get / GetRecord return the LAST entry whose stored key is a prefix of the key
 // (the early break is justified by sortedness).
